@@ -39,9 +39,9 @@ func scenarios(quick bool) []scen {
 func TestC22(t *testing.T) {
 	run := evid.Start("C22", "model_checking")
 	agg := mc.NewAgg(run)
-	bound := 2
+	bound := 1
 	if !run.Quick() {
-		bound = 3
+		bound = 2
 	}
 	mc.RunScenarios(t, agg, len(scenarios(run.Quick())), func(i int) *vsync.Config {
 		sc := scenarios(run.Quick())[i]
@@ -66,7 +66,17 @@ func TestC22(t *testing.T) {
 				return ""
 			},
 		}
-	}, func(v *vsync.Violation) string { return sigh.Class(strings.Split(v.What, " ; ")[0]) })
+	}, func(v *vsync.Violation) string {
+		seen := map[string]bool{}
+		var ks []string
+		for _, p := range strings.Split(v.What, " ; ") {
+			if c := sigh.Class(p); !seen[c] {
+				seen[c] = true
+				ks = append(ks, c)
+			}
+		}
+		return strings.Join(ks, " ; ")
+	})
 	agg.Finish(true)
 	run.Cov["preemption_bound"] = bound
 	run.Assumptions = append(run.Assumptions,
